@@ -38,6 +38,11 @@ ASSUMPTIONS = (
     "assert_array_equal_units is numpy's business and not judged",
     "SI and Gaussian electromagnetic units of the same quantity (C vs statC, T vs G) have different dimension vectors but unyt converts "
     "between them by design (EM route, DESIGN 3): such pairs are neither used as commensurable nor as incommensurable operands",
+    "numpy's own defaults apply to np.allclose/np.isclose (rtol=1e-5, atol=1e-8 bare); cases whose conversions leave the normal range "
+    "of the narrowest float involved (float32: 1e-30..1e30) are discarded and counted",
+    "mechanism attribution of a wrong verdict is itself an observation: the same call is repeated with each unit-carrying tolerance "
+    "replaced by its plain-number equivalent, then with the operands re-expressed in one unit; the first replacement that makes the "
+    "helper agree with the oracle names the key (rtol-percent, rtol-qty, atol-qty, atol-bare, operand-units, else plain)",
     "accepts: only explicitly passed arguments are 'checked arguments' (DESIGN 4.8); binding of a call to parameter names is "
     "computed with inspect.signature on the undecorated function; Unit objects, None and strings as arguments are not judged",
     "returns: the checked values are the returned tuple zipped with the stated dimensions; surplus values or surplus dimensions "
@@ -411,9 +416,10 @@ def run_close(rec, unyt, r, fam, spec, fns, forms):
     with np.errstate(all="ignore"):
         mags = np.concatenate([np.abs(ua.a * ra).ravel(), np.abs(ub.a * rb).ravel(), [abs(spec["t_si"]) if ak != "default" else 0.0]])
     mags = mags[np.isfinite(mags) & (mags > 0)]
-    for sc in (ua.a, ub.a, ut.a):
-        if mags.size and (mags.min() / sc < lo or mags.max() / sc > hi):
-            rec.count("discarded:outside-float-range")
+    scs = (ua.a, ub.a, ut.a)
+    for sc in scs:
+        if (mags.size and (mags.min() / sc < lo or mags.max() / sc > hi)) or any(not (lo < sc / s2 < hi) for s2 in scs):
+            rec.count("discarded:outside-float-range")      # readings or the conversion factor itself
             return
     # tolerance objects
     if rk in ("default",):
@@ -850,6 +856,7 @@ def run_accepts(rec, unyt, r, tname, form, dname_a, dname_b, how, xa, xb, filler
     except Exception as e:
         out, res = "other:" + type(e).__name__, e
     rec.count("calls:accepts")
+    rec.reach(f"accepts:{tname}/{form}")
     rec.count(f"sub:accepts:{exp}-expected")
     case = {"template": tname, "form": form, "a": [dname_a, xa[1].s, xa[2]], "b": [dname_b, xb[1].s, xb[2]], "dimension-given-as": how,
             "outcome": out if out != "refuse" else "TypeError: " + str(res)[:120]}
@@ -933,6 +940,7 @@ def run_returns(rec, unyt, r, tname, how, items):
     except Exception as e:
         out, res = "other:" + type(e).__name__, e
     rec.count("calls:returns")
+    rec.reach("returns:" + tname)
     rec.count(f"sub:returns:{exp}-expected")
     case = {"template": tname, "returned": [[dn, x[1].s, x[2]] for dn, x in items], "dimension-given-as": how,
             "outcome": out if out != "refuse" else "TypeError: " + str(res)[:120]}
@@ -1155,12 +1163,16 @@ def extra(tier, seed, results):
     names = module_dimension_names(unyt)
     unreached = [n for n in names if "dim:" + n not in reached]
     fams = [f for f in fam_vectors(tier) if "family:" + f not in reached]
+    cat = [f"accepts:{t}/{f}" for t, (_, fs) in templates([]).items() for f in fs] + ["returns:" + t for t in RET_TEMPLATES]
+    cat += ["spelling-class:" + c for c in ("atomic", "prefixed", "alias", "alias-prefixed", "base-si", "base-cgs", "base-imp", "base-pow",
+                                            "base-sqrt", "base-mix", "named-compound", "ratio", "offset:atomic")]
+    call_forms = [c for c in cat if c not in reached]
     ok_batches = sum(1 for _, res in results if res.get("status") == "ok")
     zero = [k for k, v in subs.items() if v == 0]
     if zero and ok_batches:
         raise core.Inconclusive("sub-monitors-never-evaluated:" + ",".join(zero))
     cpu = sorted(((res.get("counters", {}).get("batch-cpu-ms", 0), bid) for bid, res in results), reverse=True)
     return {"batch_cpu_seconds": {"total": round(sum(c for c, _ in cpu) / 1000, 1), "slowest": [[b, round(c / 1000, 1)] for c, b in cpu[:4]]},
-            "sub_monitor_evaluations": subs, "unreached": {"dimension-names": unreached, "families": fams},
+            "sub_monitor_evaluations": subs, "unreached": {"dimension-names": unreached, "families": fams, "call-forms-and-spelling-classes": call_forms},
             "helper_calls": {k[6:]: v for k, v in counters.items() if k.startswith("calls:")},
             "discarded": {k: v for k, v in counters.items() if k.startswith("discarded") or k.startswith("pool-dropped")}}
